@@ -664,6 +664,15 @@ def r11_sweep_spares_current(ctx, cfg):
                         ne_edge = tt if r["op"] == "Ne" else ft
                         if not (set(b.pred[ne_edge]) - {sbb}) and b.dominates(ne_edge, d.bb):
                             guarded = True
+            if not guarded:
+                # the same test written as membership in an explicit list: `![self.generation, self.prev_generation].contains(&file_gen)`
+                for c in b.calls:
+                    if c.bb in b.live_blocks() and re.search(r"core::slice::<impl \[T\]>::contains$", c.name) and c.args and op_local(c.args[0]) is not None:
+                        rs = Slice(b, [op_local(c.args[0])], transparent=True)
+                        if {f[-1] for f in rs.fields if f} & counters:
+                            for (sbb, tt, ft) in bool_switches(b, c.dest[0]):
+                                if not (set(b.pred[ft]) - {sbb}) and b.dominates(ft, d.bb):
+                                    guarded = True
             ctx.check(guarded, rule, [b.id, "sweep-spares-current"], "the removal is behind `scanned != current generation`",
                       "%s sweeps the directory and removes generation-numbered files without an equality test of the scanned generation against the saver's own "
                       "counter (%s) on the way: a window or ordering test is empty or wrong when a reload left the other bound above the current generation, and "
